@@ -160,6 +160,26 @@ def install_guard(ctx) -> bounded.Guard:
         ctx.finish(LEVEL)
 
     g.on_hard = on_hard
+
+    def report_from_monitor(label: str, payload: Any, why: str) -> None:
+        # runs in the forked monitor process: plain files and stdout only
+        import json
+        from harness.lib import common
+        case = dict(payload) if isinstance(payload, dict) else {"case": repr(payload)}
+        case.update({"rule": "runaway", "why": why})
+        os.makedirs(common.REPLAY_DIR, exist_ok=True)
+        path = os.path.join(common.REPLAY_DIR, f"C17-runaway_{str(case.get('entry', 'library-call')).replace(':', '_')}.json")
+        with open(path, "w") as f:
+            json.dump({"property": "C17", "tier": ctx.tier, "seed": ctx.seed, "key": f"runaway:{case.get('entry', 'library-call')}", "kind": "concrete",
+                       "what": f"library call {label} {why}; the check was killed by its monitor", "case": case}, f, indent=1)
+        with open(os.path.join(common.EVIDENCE_DIR, "C17.json"), "w") as f:
+            json.dump({"property_id": "C17", "tier": ctx.tier, "seed": ctx.seed, "level": "other", "violations": 1,
+                       "coverage": {"explanation": "check killed by its monitor: a library call neither returned nor could be interrupted", "replay": path},
+                       "assumptions": [], "wall_s": round(__import__("time").time() - ctx.t0, 1)}, f, indent=1)
+        print(f"VIOLATION property=C17 replay={path}", flush=True)
+        print(f"  oracle: runaway - library call {label} {why}", flush=True)
+
+    g.start_external(report_from_monitor)
     return g
 
 
@@ -779,8 +799,8 @@ def run(ctx) -> None:
         "os.getcwd() is canonical; POSIX path semantics (no drives)",
         "hard links and mount points are outside the model",
     ]
+    guard = install_guard(ctx)          # forks the monitor: before pyarrow & co. start threads
     warm_up()
-    guard = install_guard(ctx)
     ok = ctx.proofs(THEOREMS, gen_files=GEN_FILES)
     ctx.allow_axioms([])
 
@@ -789,18 +809,18 @@ def run(ctx) -> None:
     import time as _time
 
     def staged(name: str, fn: Callable[[], Any]) -> Any:
-        t0 = _time.time()
+        t0, c0 = _time.time(), _time.process_time()
         try:
             return fn()
         finally:
-            stages[name] = round(_time.time() - t0, 1)
+            stages[name] = [round(_time.time() - t0, 1), round(_time.process_time() - c0, 1)]     # wall, CPU of this process
             ctx.stats["stage_seconds"] = stages
     ws_probe = os.path.realpath(ctx.scratch)
-    audit_strings = strings_for(ctx, os.path.join(ws_probe, "ws-storage"), 3 if quick else 4, 250 if quick else 3500)
+    audit_strings = strings_for(ctx, os.path.join(ws_probe, "ws-storage"), 3 if quick else 4, 120 if quick else 3500)
     obs_ws, obs = staged('audit_storage', lambda: oracle_storage(ctx, audit_strings))
     table_strings = strings_for(ctx, os.path.join(ws_probe, "ws-table"), 3, 0 if quick else 600)
     if quick:
-        table_strings = table_strings[::3]
+        table_strings = table_strings[::4]
     staged('audit_acyclic', lambda: oracle_acyclic(ctx, 2 if quick else 3))
     staged('audit_table', lambda: oracle_table(ctx, table_strings))
     staged('strace', lambda: oracle_strace(ctx))
@@ -811,7 +831,7 @@ def run(ctx) -> None:
         corr_strings = pathfs.grammar(3) if quick else pathfs.grammar(4)
         staged('corr_standard', lambda: corr_paths(ctx, corr_strings))
         staged('corr_acyclic', lambda: corr_paths(ctx, pathfs.grammar(2 if quick else 3, pathfs.ACYCLIC_COMPONENTS), arrangement="acyclic"))
-        staged('corr_entries', lambda: corr_entries(ctx, obs_ws, obs, 2 if quick else 3))
+        staged('corr_entries', lambda: corr_entries(ctx, obs_ws, obs, 3))
         staged('corr_random', lambda: corr_random_trees(ctx, 60 if quick else 600, 25))
     except RuntimeError as e:
         ctx.proof_problems.append("model evaluation failed: " + str(e)[:800])
@@ -834,8 +854,8 @@ def replay(ctx, payload) -> int:
     if not {"entry", "path", "base"} <= set(case):
         print("replay: payload names no concrete call (broken proof / correspondence): re-run ./bin/check C17 thorough")
         return 2
-    warm_up()
     install_guard(ctx)
+    warm_up()
     entry, p, base_kind = case["entry"], case["path"], case["base"]
     if case.get("tree"):
         return replay_random_tree(ctx, case)
